@@ -72,14 +72,15 @@ func (l *Lit) UnmarshalJSON(b []byte) error {
 // cases
 
 type violCase struct {
-	Kind   string  `json:"kind"` // tree | reject | near
-	Src    string  `json:"src"`  // base64 of the source text
-	Show   string  `json:"show"` // the same text, quoted, for the reader
-	Tree   *Node   `json:"tree,omitempty"`
-	Expr   bool    `json:"expr,omitempty"`   // parsed with ParseExpr
-	Either bool    `json:"either,omitempty"` // rejection is acceptable too
-	Layout *Layout `json:"layout,omitempty"`
-	Key    string  `json:"key"`
+	Kind   string          `json:"kind"` // tree | reject | near
+	Src    string          `json:"src"`  // base64 of the source text
+	Show   string          `json:"show"` // the same text, quoted, for the reader
+	Tree   *Node           `json:"tree,omitempty"`
+	Expr   bool            `json:"expr,omitempty"`   // parsed with ParseExpr
+	Either bool            `json:"either,omitempty"` // rejection is acceptable too
+	Layout *Layout         `json:"layout,omitempty"`
+	Wide   json.RawMessage `json:"wide,omitempty"` // kind wide: the (container, unit, n) triple; the text is rebuilt from it
+	Key    string          `json:"key"`
 }
 
 var fileOpts = &syntax.FileOptions{Set: true, While: true, TopLevelControl: true, GlobalReassign: true}
@@ -752,6 +753,7 @@ func levels(tier string) []elevel {
 		}
 	}
 	add("near-miss:bases exprA<=3,stmt<=4,prec<=2 with <=12 tokens", func(w *worker) bool { return w.nearFrom(nearSrc(3, 4, 2), 12) })
+	add("wide:every unit of size<=2 as n equal neighbours in 12 kinds of sequence, n up to 1025 (thorough: 4097)", func(w *worker) bool { return w.levelWide(thorough) })
 	add("prec:k=3(all ordered triples,all shapes; base layouts)", func(w *worker) bool { return w.levelPrec(3, all, "prec", 0) })
 	add("exprA:size=4,depth<=3(single deviations)", func(w *worker) bool { return w.levelExpr(pa, 4, 3, 1) })
 	add("stmt:size=4(single deviations)", func(w *worker) bool { return w.levelStmt(ps, 4, 1) })
@@ -872,6 +874,17 @@ func replay(c *fw.Ctx, raw json.RawMessage) []fw.Viol {
 	switch vc.Kind {
 	case "tree":
 		if errs := judgeTree(src, vc.Tree, vc.Expr, vc.Either); len(errs) > 0 {
+			return []fw.Viol{{Key: vc.Key, What: strings.Join(errs, "; ")}}
+		}
+	case "wide":
+		var wc wideCase
+		if err := json.Unmarshal(vc.Wide, &wc); err != nil {
+			fw.Fatal("bad wide case: %v", err)
+		}
+		if _, errs := judgeWide(wc); len(errs) > 0 {
+			if len(errs) > 3 {
+				errs = errs[:3]
+			}
 			return []fw.Viol{{Key: vc.Key, What: strings.Join(errs, "; ")}}
 		}
 	case "reject":
